@@ -88,7 +88,7 @@ class C05(OutstationProp):
                 # the retry after a confirm timeout must be the fragment sent before, whatever changed in between
                 # (new event -> class bit, application IIN, broadcast): seeded changes C14_a / C05_b
                 cfg["retries"] = rng.choice(["none", "2", "3"])
-                cfg["retry_delay_ms"] = rng.choice([1, 500, 1000])   # 0: see DESIGN 7a (model fix pending)
+                cfg["retry_delay_ms"] = rng.choice([0, 500, 1000])
                 what = rng.choice(["update", "appiin", "bcast", "update"])
                 if what == "update":
                     ops.append(("update", "binary", 0, str(rng.below(2)), 1, 400 + rng.below(100)))
